@@ -240,7 +240,7 @@ def drop_non_functional(exe, lines):
     return [l for i, l in enumerate(lines) if i not in bad], len(bad)
 
 
-def prescreen(exe, lines, chunk=64, chunk_timeout=40, single_timeout=4, max_hung=3):
+def prescreen(exe, lines, chunk=64, chunk_timeout=180, single_timeout=30, max_hung=3):
     """Run the op lines once in chunks with a time limit, so that a run on which the (possibly
     modified) solver does not terminate cannot block the whole check.
     After `max_hung` such runs the screening stops (the remaining lines are not run at all): the check
